@@ -145,7 +145,7 @@ Proof.
                else (Some (resolve_local_wins x y), VLocalWins)).
   { unfold vtransfer. rewrite D1. rewrite andb_comm in T. rewrite T, C. reflexivity. }
   split.
-  - unfold vstatus_of, vstep_full. rewrite X, Y, TR. destruct (lww_remote_wins x y); reflexivity.
+  - unfold vstatus_of, vstep_full, pull_full. rewrite X, Y, TR. destruct (lww_remote_wins x y); reflexivity.
   - cbn zeta. pose proof (lww_converges_inv s d I) as CV. cbn zeta in CV.
     destruct (push_docs (vstep s (VPull d)) d) as [_ P2]. destruct (pull_docs s d) as [Q1 _].
     assert (A : vobs (vdoc_of (vstep (vstep s (VPull d)) (VPush d)) VA d) = vobs (Some (lww_winner x y))).
@@ -195,13 +195,13 @@ Proof.
     repeat split.
     + intros q d'. rewrite vstep_pull, X, Y, T1. cbn [fst]. rewrite <- X. apply store_same.
     + intros q d'. rewrite vstep_push, X, Y, T2. cbn [fst]. rewrite <- Y. apply store_same.
-    + left. unfold vstatus_of, vstep_full. now rewrite X, Y, T1.
-    + left. unfold vstatus_of, vstep_full. now rewrite X, Y, T2.
+    + left. unfold vstatus_of, vstep_full, pull_full. now rewrite X, Y, T1.
+    + left. unfold vstatus_of, vstep_full, push_full. now rewrite X, Y, T2.
   - repeat split.
     + intros q d'. rewrite vstep_pull, X, Y. cbn [vtransfer fst]. rewrite <- X. apply store_same.
     + intros q d'. rewrite vstep_push, X, Y. cbn [vtransfer fst]. rewrite <- Y. apply store_same.
-    + right. unfold vstatus_of, vstep_full. now rewrite X, Y.
-    + right. unfold vstatus_of, vstep_full. now rewrite X, Y.
+    + right. unfold vstatus_of, vstep_full, pull_full. now rewrite X, Y.
+    + right. unfold vstatus_of, vstep_full, push_full. now rewrite X, Y.
 Qed.
 
 (* re-running the caught-up replication: a second Pull d; Push d stores nothing *)
@@ -221,7 +221,7 @@ Qed.
 (* a transfer is never answered "already present" after the revision was sent: CheckChangeVersion filtered it *)
 Theorem vv_never_cancelled : forall ops o, vstatus_of (vrun vsys0 ops) o <> VCancelled.
 Proof.
-  intros ops o. pose proof (reachable_vinv ops) as I. set (s := vrun vsys0 ops) in *.
+  intros ops o. pose proof (reachable_vinv ops) as I. set (s := vrun vsys0 ops) in *. clearbody s.
   assert (K : forall resolver i l, (forall x, l = Some x -> simple (d_hlv x)) ->
               snd (vtransfer resolver i l) <> VCancelled).
   { intros resolver [i|] [x|] Sl; try (cbn; discriminate).
@@ -234,13 +234,18 @@ Proof.
     - exfalso. apply (proj1 (status_cases _ _)) in C. destruct C as [C|[_ C]]; [|congruence].
       apply equal_cv_spec in C. rewrite (dominates_same_cv (d_hlv i) (d_hlv x)) in D; [discriminate| |auto].
       apply (Sl x eq_refl). }
-  destruct o as [p d body phys | p d phys | d | d]; unfold vstatus_of, vstep_full.
+  assert (P : forall s0, VInv s0 -> forall d, vstatus_of s0 (VPull d) <> VCancelled).
+  { intros s0 I0 d. unfold vstatus_of, vstep_full, pull_full.
+    specialize (K true (vdoc_of s0 VB d) (vdoc_of s0 VA d) (fun x X => vi_simple s0 I0 VA d x X)).
+    destruct (vtransfer true (vdoc_of s0 VB d) (vdoc_of s0 VA d)). exact K. }
+  destruct o as [p d body phys | p d phys | d | d | d body phys].
   - cbn. discriminate.
-  - destruct (vdoc_of s p d) as [x|]; cbn; discriminate.
-  - specialize (K true (vdoc_of s VB d) (vdoc_of s VA d) (fun x X => vi_simple s I VA d x X)).
-    destruct (vtransfer true (vdoc_of s VB d) (vdoc_of s VA d)). exact K.
-  - specialize (K false (vdoc_of s VA d) (vdoc_of s VB d) (fun x X => vi_simple s I VB d x X)).
+  - unfold vstatus_of, vstep_full. destruct (vdoc_of s p d) as [x|]; cbn; discriminate.
+  - apply P, I.
+  - unfold vstatus_of, vstep_full, push_full.
+    specialize (K false (vdoc_of s VA d) (vdoc_of s VB d) (fun x X => vi_simple s I VB d x X)).
     destruct (vtransfer false (vdoc_of s VA d) (vdoc_of s VB d)). exact K.
+  - rewrite (proj2 (vstep_pull_retry s d body phys)). apply P. apply vstep_inv, I.
 Qed.
 
 (* ---------- local writes ---------- *)
@@ -254,7 +259,7 @@ Theorem vv_local_write_fresh : forall ops p d body phys,
 Proof.
   intros ops p d body phys s. pose proof (reachable_vinv ops) as I. fold s in I.
   destruct (local_write_vector s p d phys I) as [h' [A [B [C [D E]]]]]. cbv zeta in A.
-  unfold vstep, vstep_full. cbn [fst]. rewrite vdoc_set_peer.
+  unfold vstep, vstep_full, edit_sys. cbn [fst]. rewrite vdoc_set_peer.
   assert (Q : vside_eqb p p = true) by (destruct p; reflexivity). rewrite Q.
   unfold local_write. rewrite A. cbn [p_doc]. rewrite updf_same.
   eexists. split; [reflexivity|]. cbn [d_body d_del d_hlv]. repeat split; auto.
@@ -264,20 +269,26 @@ Proof.
 Qed.
 
 (* documents are independent *)
+Lemma local_write_other_doc : forall s p q d d' body del phys, d' <> d ->
+  vdoc_of (set_peer s p (local_write p (peer_of s p) d body del phys)) q d' = vdoc_of s q d'.
+Proof.
+  intros s p q d d' body del phys N. rewrite vdoc_set_peer. destruct (vside_eqb q p) eqn:Q; [|reflexivity].
+  unfold local_write. destruct (add_version _ _); cbn [p_doc].
+  - rewrite updf_other by auto. destruct q, p; try discriminate; reflexivity.
+  - destruct q, p; try discriminate; reflexivity.
+Qed.
+
 Theorem vv_documents_independent : forall s o q d, d <> vop_doc o -> vdoc_of (vstep s o) q d = vdoc_of s q d.
 Proof.
-  intros s o q d N. destruct o as [p d0 body phys | p d0 phys | d0 | d0]; cbn [vop_doc] in N.
-  - unfold vstep, vstep_full. cbn [fst]. rewrite vdoc_set_peer. destruct (vside_eqb q p) eqn:Q; [|reflexivity].
-    unfold local_write. destruct (add_version _ _); cbn [p_doc].
-    + rewrite updf_other by auto. destruct q, p; try discriminate; reflexivity.
-    + destruct q, p; try discriminate; reflexivity.
+  intros s o q d N. destruct o as [p d0 body phys | p d0 phys | d0 | d0 | d0 body phys]; cbn [vop_doc] in N.
+  - unfold vstep, vstep_full, edit_sys. cbn [fst]. now apply local_write_other_doc.
   - unfold vstep, vstep_full. destruct (vdoc_of s p d0) as [x|]; cbn [fst]; try reflexivity.
-    rewrite vdoc_set_peer. destruct (vside_eqb q p) eqn:Q; [|reflexivity].
-    unfold local_write. destruct (add_version _ _); cbn [p_doc].
-    + rewrite updf_other by auto. destruct q, p; try discriminate; reflexivity.
-    + destruct q, p; try discriminate; reflexivity.
+    now apply local_write_other_doc.
   - rewrite vstep_pull, vdoc_store. destruct (N.eqb_spec d d0); [contradiction|]. now rewrite andb_false_r.
   - rewrite vstep_push, vdoc_store. destruct (N.eqb_spec d d0); [contradiction|]. now rewrite andb_false_r.
+  - rewrite (proj1 (vstep_pull_retry s d0 body phys)). rewrite vstep_pull, vdoc_store.
+    destruct (N.eqb_spec d d0); [contradiction|]. rewrite andb_false_r.
+    unfold vstep, vstep_full, edit_sys. cbn [fst]. now apply local_write_other_doc.
 Qed.
 
 (* reachable vectors never carry merge versions and always have a real source *)
